@@ -96,11 +96,18 @@ def main():
                 for k in ("tests", "tests_pass", "tests_s"):
                     if k in prev:
                         res[k] = prev[k]
-                res["history"] = prev.get("history", []) + [{"checks": prev.get("checks")}]
+                res["history"] = prev.get("history", [])
+                merged = dict(prev.get("checks") or {})
+                for k, v in res["checks"].items():
+                    if k in merged and merged[k].get("verdict") != v.get("verdict"):
+                        res["history"] = res["history"] + [{"checks": {k: merged[k]}}]
+                    merged[k] = v
+                res["checks"] = merged
             except Exception:
                 pass
-        shutil.copy(os.path.join(src, "patch.diff"), dst)
-        shutil.copy(demo, dst)
+        if os.path.realpath(src) != os.path.realpath(dst):
+            shutil.copy(os.path.join(src, "patch.diff"), dst)
+            shutil.copy(demo, dst)
         meta["confirmed_by_me"] = res
         meta["ran"] = ("scratch worktree of /repo HEAD; demo.py on unchanged tree (must exit 0) and on the patched tree (must exit != 0); "
                        "tools/baseline.sh on the patched tree (398 pinned tests); ./check <ID> --tier quick with VERIF_REPO=<patched tree>")
